@@ -111,18 +111,18 @@ def check_waveform(kind, d, rng):
 
 def check_from_max_val(cls, rng):
     out = []
-    mv = rng.choice([1.0, 5.0, 10.0, 39.0, -7.0])
-    area = rng.choice([1.0, math.pi, 6.0]) * (1 if mv > 0 else -1)
-    kw = {} if cls is BlackmanWaveform else {"beta": rng.choice([14.0, 5.0, 8.0])}
+    mv = rng.choice([1.0, 2.5, 5.0, 10.0, 20.0, 39.0, 60.0, -7.0, -39.0])
+    area = rng.choice([0.5, 1.0, math.pi, 6.0, 10.0]) * (1 if mv > 0 else -1)
+    kw = {} if cls is BlackmanWaveform else {"beta": rng.choice([14.0, 5.0, 8.0, 2.0, 3.0])}
     w = cls.from_max_val(mv, area, **kw)
     s = arr(w)
     if np.max(np.abs(s)) > abs(mv) * (1 + 1e-9):
         out.append(f"{cls.__name__}.from_max_val({mv}, {area}, {kw}): peak {np.max(np.abs(s))} exceeds the maximum value")
-    if w.duration > 12:
+    if w.duration > 2:
+        # "as close to it as whole nanoseconds allow": one nanosecond shorter would exceed the maximum value
         shorter = cls(w.duration - 1, area, **kw) if cls is KaiserWaveform else cls(w.duration - 1, area)
-        shorter2 = cls(w.duration - 2, area, **kw) if cls is KaiserWaveform else cls(w.duration - 2, area)
-        if np.max(np.abs(arr(shorter))) <= abs(mv) and np.max(np.abs(arr(shorter2))) <= abs(mv):
-            out.append(f"{cls.__name__}.from_max_val({mv}, {area}, {kw}): {w.duration} ns chosen although {w.duration - 2} and {w.duration - 1} ns also stay within the maximum")
+        if np.all(np.isfinite(arr(shorter))) and np.max(np.abs(arr(shorter))) <= abs(mv) * (1 - 1e-12):
+            out.append(f"{cls.__name__}.from_max_val({mv}, {area}, {kw}): {w.duration} ns chosen although {w.duration - 1} ns also stays within the maximum")
     return out
 
 
@@ -176,8 +176,8 @@ def run(rng, budget_s, known_match):
             samples.append(dict(kind=kind, duration=d))
         for m in msgs:
             failures.append(dict(prop="C16", clause=m, step=-1, op=[kind, d], known=known_match(m, kind, d)))
-        if evals % 7 == 0:
-            for m in check_pulse(rng) + check_from_max_val(rng.choice([BlackmanWaveform, KaiserWaveform]), rng):
+        if evals % 3 == 0:
+            for m in check_pulse(rng) + check_from_max_val(rng.choice([BlackmanWaveform, KaiserWaveform, KaiserWaveform]), rng):
                 failures.append(dict(prop="C16", clause=m, step=-1, op=["pulse/from_max_val"], known=known_match(m, "pulse", 0)))
             evals += 2
         if len([f for f in failures if not f.get("known")]) >= 5:
